@@ -241,6 +241,20 @@ Theorem fetches_of_distinct_blocks :
 Proof. exact fetches_nodup. Qed.
 Print Assumptions fetches_of_distinct_blocks.
 
+(* The exported selector builders (DagsyncSelector, ExploreRecursiveWithStop,
+   ExploreRecursiveWithStopNode) handed to Syncer.Sync directly: over every chain, with every
+   stop link and recursion limit (none / depth), the same specified segment *)
+Theorem sync_with_built_selector_meets_spec :
+  forall k extra ch pub head stop lim st,
+    chain_wf k extra ch = true -> In head ch -> is_stop stop head = false ->
+    let seg := segment ch head stop lim in
+    avail pub (s_store st) seg = true ->
+    sync_sel (chain_world k extra ch pub) (kind_view k) stop lim head st =
+    CO RNil seg (missing (s_store st) seg) None
+       (ST (s_latest st) (rev (missing (s_store st) seg) ++ s_store st)).
+Proof. exact sync_sel_spec. Qed.
+Print Assumptions sync_with_built_selector_meets_spec.
+
 (* ---- handler removal ---- *)
 
 (* The latest sync is state of the Subscriber, not of the per-publisher handler: for every
@@ -249,7 +263,7 @@ Print Assumptions fetches_of_distinct_blocks.
    themselves report, request and emit nothing.  In particular the stop point of the next
    sync is still the publisher's last synced advertisement. *)
 Theorem latest_sync_survives_handler_removal :
-  forall w cfg l st,
+  forall cfg l w st,
     filter (fun p => negb (is_removal (fst p))) (fst (run_seq w cfg l st)) =
       fst (run_seq w cfg (filter (fun c => negb (is_removal c)) l) st) /\
     snd (run_seq w cfg l st) = snd (run_seq w cfg (filter (fun c => negb (is_removal c)) l) st) /\
@@ -257,3 +271,74 @@ Theorem latest_sync_survives_handler_removal :
        r_hooks o = [] /\ r_reqs o = [] /\ r_event o = None).
 Proof. exact removal_steps_are_invisible. Qed.
 Print Assumptions latest_sync_survives_handler_removal.
+
+(* ---- ties to the Gallina regenerated from the Go source (proofs/GenTie_C01.v) ---- *)
+From Coq Require Import ZArith NArith List Bool Lia String.
+From Lib Require Import Bytes.
+From Model Require Import C01_ChainSync.
+From Gen Require Import Gen_Funcs_prelude Gen_Funcs_dagsync.
+Import ListNotations.
+Local Open Scope Z_scope.
+From Proofs Require Import GenTie_C01.
+
+Theorem gen_tie_recursionLimit : forall depth,
+  rl depth = dagsync_recursionLimit RL rl_depth rl_none depth.
+Proof. exact GenTie_C01.tie_recursionLimit. Qed.
+Print Assumptions gen_tie_recursionLimit.
+
+Theorem gen_tie_SyncAdChain_limits : forall (cfg : subcfg) (st : substate) (a : adcall),
+  dagsync_SyncAdChain_limits ocid ocid RL ocid_eqb rl_depth rl_none ocid_isnil (fun c => c) None
+     (eff_latest cfg st)               (* s.GetLatestSync(peerInfo.ID) *)
+     None                              (* cid.Undef *)
+     (a_depth a) (a_resync a) (a_seg a) (a_stop a)
+     (rl (c_ads_depth cfg))            (* s.adsDepthLimit = recursionLimit(opts.adsDepthLimit), NewSubscriber L239 *)
+     (c_first_depth cfg) (c_seg_depth cfg)
+  = FFall (go_depth cfg a (go_stop cfg st a), go_stop cfg st a, resolve_seg cfg (a_seg a)).
+Proof. exact GenTie_C01.tie_SyncAdChain_limits. Qed.
+Print Assumptions gen_tie_SyncAdChain_limits.
+
+Theorem gen_tie_handle_segment_decision : forall (segdl : Z) (h : hook_kind) (lim : RL),
+  dagsync_handle_segment_decision hook_kind RL (fun h => negb (has_hook h)) None rl_depth_of rl_mode
+     h segdl (lim, true)
+  = FFall (seg_enabled segdl h lim).
+Proof. exact GenTie_C01.tie_handle_segment_decision. Qed.
+Print Assumptions gen_tie_handle_segment_decision.
+
+Theorem gen_seg_loop_uses_seg_step : forall f w v stop orig segdl h nd dsf next acc,
+  seg_loop (S f) w v stop orig segdl h nd dsf next acc =
+  let o := walk (walk_fuel w) w v stop (Some nd) next (h_store acc) in
+  match o_res o with
+  | WOk =>
+    let acc' := HO (h_hooks acc ++ o_order o) (h_reqs acc ++ o_reqs o) (o_store o)
+                   (h_count acc + length (o_order o)) None in
+    match seg_step orig segdl nd dsf stop (nominated w h (o_order o)) with
+    | SegStop => acc'
+    | SegNext nd' dsf' n => seg_loop f w v stop orig segdl h nd' dsf' n acc'
+    end
+  | e => HO (h_hooks acc) (h_reqs acc ++ o_reqs o) (o_store o) 0 (Some e)
+  end.
+Proof. exact GenTie_C01.seg_loop_uses_seg_step. Qed.
+Print Assumptions gen_seg_loop_uses_seg_step.
+
+Theorem gen_tie_handle_segment_step : forall (orig : option nat) (segdl nd dsf : nat) (stop nom : option cid),
+  read_step nom
+    (dagsync_handle_segment_step ocid ocid_eqb ocid_isnil
+       (Z.of_nat segdl) stop
+       (rl_depth_of orig) (rl_mode orig)
+       false             (* segSync.nextSyncCid.Equals(cid.Undef): None below stands for nil and for cid.Undef *)
+       (Z.of_nat dsf)
+       None              (* cid.Undef *)
+       (Z.of_nat nd)
+       None              (* segSync.err: no hook failure *)
+       nom)              (* *segSync.nextSyncCid *)
+  = Some (seg_step orig segdl nd dsf stop nom).
+Proof. exact GenTie_C01.tie_handle_segment_step. Qed.
+Print Assumptions gen_tie_handle_segment_step.
+
+Theorem gen_tie_SyncEntries_scoped : forall (T : Type) (sel h : T) (depth : Z),
+  match dagsync_SyncEntries_scoped T h depth sel with
+  | FFall tr => (depth =? 0) = match tr with [] => true | _ => false end
+  | _ => False
+  end.
+Proof. exact GenTie_C01.tie_SyncEntries_scoped. Qed.
+Print Assumptions gen_tie_SyncEntries_scoped.
